@@ -74,7 +74,7 @@ def run(ctx, chk):
                         "'every definite container completely filled' and value fidelity beyond the per-head tables (C10/C15)"]
     # 1. dispatch
     n = DR.per_byte(chk, "C02", prog, eff, {"action", "payload", "read", "claim", "error-arm", "status"})
-    chk.floor("C02.action", "per-byte obligations", n, 700)
+    chk.floor("C02.action", "per-byte obligations", n, 500)
 
     # 2. wiring
     load = prog.fn("cbor_load")
@@ -232,7 +232,7 @@ def run(ctx, chk):
     for fn, callee, atom, ok, where, detail, pa in res:
         chk.ob("C02.attach", "%s: %s needs %s" % (fn, callee, atom.get("text", "")), ok, where, fn=fn,
                key="%s:%s:%s" % (fn, callee, atom.get("text", "")), detail=detail, path=pa.block_lines() if not ok else None)
-    chk.floor("C02.attach", "precondition obligations in the builders", len(res), 40)
+    chk.floor("C02.attach", "precondition obligations in the builders", len(res), 25)
     # default arm
     app = prog.fn("_cbor_builder_append")
     T = prog.enum("cbor_type")
